@@ -231,6 +231,13 @@ def tr_adaptive_line():
             'newp = np.hstack((p, p[:, t[:, marked]].mean(1)))',
             'newt = np.vstack((t[0, marked], mid))',
             'newt = np.hstack((t[:, nonmarked], newt, np.vstack((mid, t[1, marked]))))']
+    uniq = False
+    for pos in (0, 1):
+        if len(s) > pos and s[pos] in ('marked = np.unique(marked)', 'marked = np.unique(np.asarray(marked))'):
+            uniq = True
+            del s[pos]
+            del b[pos]
+            break
     if s[:6] != head:
         raise TranslateError('MeshLine1._adaptive head: ' + repr(s[:6]))
     rest = b[6:]
@@ -255,7 +262,7 @@ def tr_adaptive_line():
                 and _srcs(ifn.body) == want):
             raise TranslateError('MeshLine1._adaptive: subdomain map changed')
         sub = 'own'
-    return {'subdomains': sub, 'boundaries': 'kept' if '_boundaries' not in kw else t2.src(kw['_boundaries'])}
+    return {'subdomains': sub, 'boundaries': 'kept' if '_boundaries' not in kw else t2.src(kw['_boundaries']), 'unique': uniq}
 
 
 # ----------------------------------------------------------------------------- MeshTet1._adaptive (bisection step only)
@@ -372,6 +379,7 @@ def gen_text():
     L.append(f'Definition gen13_tri_rfacets : list (list nat) := {nats(R.RefTri.facets)}.')
     L.append(f'Definition gen13_tet_redges : list (list nat) := {nats(R.RefTet.edges)}.')
     L.append(f'Definition gen13_tet_rfacets : list (list nat) := {nats(R.RefTet.facets)}.')
+    L.append('(* MeshLine1._adaptive starts with marked = np.unique(marked)? *)\nDefinition gen_line_unique : bool := %s.' % ('true' if line['unique'] else 'false'))
     if line['subdomains'] == 'own':
         L.append('''(* MeshLine1._adaptive: new_t[0, nonmarked] = arange(len(nonmarked));
    new_t[:, marked] = arange(2 len(marked)).reshape(2, -1) + len(nonmarked) *)
